@@ -209,7 +209,7 @@ CHECKS["C08"] = {
             "gen/schema2rs.py turns every emitted schema into a Rust type with the real derive macros (identifiers, declaration order and n/b "
             "spelling drawn from a seed), vh-derive replays every case. This check claims the documented wire format DocEnc of spec/Derive.tla: every enumerated schema is turned into a Rust type with the real #[derive(Encode)] and its output compared byte for byte.",
     "design_ref": "DESIGN.md section 6, C08 and section 7 (F4-F8)",
-    "note": "Trusted: TLC, the schema-to-Rust generator. 693 generated types in quick. Random wider-grammar schemas (I->S) are not built yet.",
+    "note": "Trusted: TLC, the schema-to-Rust generator. 693 generated types in quick. Seeded random wider-grammar schemas (gen/randschema.py) are validated by TLC through spec/Trace_Derive.tla.",
     "technique": "TLA+ spec of the derive wire format and compatibility projection (Derive) + TLC schema/value enumeration + code generation + replay on the real macros",
     "engine": "tlc+vh-derive",
 }
@@ -221,7 +221,7 @@ CHECKS["C09"] = {
             "gen/schema2rs.py turns every emitted schema into a Rust type with the real derive macros (identifiers, declaration order and n/b "
             "spelling drawn from a seed), vh-derive replays every case. This check claims round trip through the derived decoder: the documented bytes, a wider container head and an indefinite-length container must decode to the value with exact consumption; wrong inputs must fail.",
     "design_ref": "DESIGN.md section 6, C09 and section 7 (F4-F8)",
-    "note": "Trusted: TLC, the schema-to-Rust generator. 693 generated types in quick. Random wider-grammar schemas (I->S) are not built yet.",
+    "note": "Trusted: TLC, the schema-to-Rust generator. 693 generated types in quick. Seeded random wider-grammar schemas (gen/randschema.py) are validated by TLC through spec/Trace_Derive.tla.",
     "technique": "TLA+ spec of the derive wire format and compatibility projection (Derive) + TLC schema/value enumeration + code generation + replay on the real macros",
     "engine": "tlc+vh-derive",
 }
@@ -233,7 +233,7 @@ CHECKS["C10"] = {
             "gen/schema2rs.py turns every emitted schema into a Rust type with the real derive macros (identifiers, declaration order and n/b "
             "spelling drawn from a seed), vh-derive replays every case. This check claims the compatibility relation Project of spec/Derive.tla: for every enumerated (writer, reader) pair related by the documented compatible changes and every writer value, in both directions, the reader must obtain the projected value.",
     "design_ref": "DESIGN.md section 6, C10 and section 7 (F4-F8)",
-    "note": "Trusted: TLC, the schema-to-Rust generator. 693 generated types in quick. Random wider-grammar schemas (I->S) are not built yet.",
+    "note": "Trusted: TLC, the schema-to-Rust generator. 693 generated types in quick. Seeded random wider-grammar schemas (gen/randschema.py) are validated by TLC through spec/Trace_Derive.tla.",
     "technique": "TLA+ spec of the derive wire format and compatibility projection (Derive) + TLC schema/value enumeration + code generation + replay on the real macros",
     "engine": "tlc+vh-derive",
 }
